@@ -854,6 +854,7 @@ def _r168_title_names(rep: Report, ix: Any) -> None:
                 premise = {a: False for a in atoms if a[0] == "truthy" and a[1].rsplit(".", 1)[-1] == option}
                 premise[("truthy", title)] = True
                 premise[("none", title)] = False
+                premise[("empty", title)] = False
                 if not possible(allc, premise):
                     continue
                 n += 1
@@ -977,6 +978,35 @@ def _r169_file_model(rep: Report, ix: Any, cfgc: Any, cff: Any) -> None:
                   "".join(f" - {_REWRITING_OPTIONS[o]}" for o in _REWRITING_OPTIONS if any(o in b for b in bad[:1])),
                   where=f"{k.module.rel}:{k.node.lineno}", lhs=bad or "plain fields", rhs="no converting / rewriting / renaming facility")
     rep.floor("config_file_fields", n, 9)
+    # the model is given what the file's parser returned, nothing edited in between
+    for lf in [m for m in cff.methods.values() if m.kind in ("staticmethod", "classmethod") and not m.name.startswith("_")
+               and m.node.returns is not None and cff.name in norm(m.node.returns)]:
+        edited: list[tuple[str, str]] = []
+        rets = [(c, v) for c, v in SymExec(ix).run(lf) if consistent(c)]
+        rep.require(rets, f"a path through {short(lf)} that returns")
+        makers = {cff.name} | ({lf.params[0].arg} if lf.kind == "classmethod" and lf.params else set())
+        for conds, rv in rets:
+            data = None
+            if isinstance(rv, ast.Call) and call_name(rv) in makers and not rv.args and len(rv.keywords) == 1 and rv.keywords[0].arg is None:
+                data = rv.keywords[0].value  # ConfigFile(**data)
+            elif isinstance(rv, ast.Call) and isinstance(rv.func, ast.Attribute) and rv.func.attr in ("model_validate", "parse_obj") and \
+                    norm(rv.func.value) in makers and len(rv.args) == 1 and not rv.keywords:
+                data = rv.args[0]
+            for ac, dv in alternatives(data) if data is not None else [((), rv)]:
+                if not consistent(tuple(conds) + tuple(ac)):
+                    continue
+                while isinstance(dv, ast.Call) and call_name(dv) == "dict" and len(dv.args) == 1 and not dv.keywords:
+                    dv = dv.args[0]
+                if isinstance(dv, ast.Dict) and not dv.keys:
+                    continue  # nothing in the file: no options
+                r = ix.resolve(lf.module, call_name(dv)) if isinstance(dv, ast.Call) else None
+                parsed = data is not None and isinstance(dv, ast.Call) and UNKNOWN not in names_in(dv.func) and (r is None or r[0] == "ext")
+                if not parsed:
+                    edited.append((norm(dv)[:120], conds_text(tuple(conds) + tuple(ac))[:160]))
+        rep.check(not edited, "R16.9", f"{short(lf)}::model-is-given-what-the-parser-returned",
+                  f"{cff.name} is not built from the parsed file itself ({'; '.join(f'{v} when {c or chr(39) + 'always' + chr(39)}' for v, c in edited[:2])}): "
+                  "values can be changed between the file and the options", where(lf, lf.node), lhs=edited[:4] or "parsed file",
+                  rhs=f"{cff.name}(**<what the JSON / YAML parser returned>)")
     # the type a field is decoded as is the type the option has
     file_fields, cfg_fields = ix.all_fields(cff), ix.all_fields(cfgc)
     for fld, ann in file_fields.items():
@@ -1833,7 +1863,8 @@ class SymExec:
 
 
 # -- path conditions --------------------------------------------------------------------------------------------------------------------
-# atoms: ("none", X) for `X is None`, ("truthy", X) for anything else used as a test; the one axiom is  X is None  =>  not X
+# atoms: ("none", X) for `X is None`, ("empty", X) for `X == <empty literal>`, ("truthy", X) for anything else used as a test; the axioms are
+# X is None  =>  not X   and   X == <empty>  =>  not X and X is not None
 
 def _unbool(e: ast.AST) -> ast.AST:
     """`bool(x)` used as a test is the test `x`"""
@@ -1847,7 +1878,16 @@ def _leaf(e: ast.AST) -> tuple[tuple[str, str], bool] | None:
     if isinstance(e, ast.Compare) and len(e.ops) == 1 and isinstance(e.comparators[0], ast.Constant) and e.comparators[0].value is None and \
             isinstance(e.ops[0], (ast.Is, ast.IsNot, ast.Eq, ast.NotEq)):
         return ("none", norm(e.left)), isinstance(e.ops[0], (ast.Is, ast.Eq))
+    if isinstance(e, ast.Compare) and len(e.ops) == 1 and isinstance(e.ops[0], (ast.Eq, ast.NotEq)) and _is_empty_literal(e.comparators[0]):
+        return ("empty", norm(e.left)), isinstance(e.ops[0], ast.Eq)
     return ("truthy", norm(e)), True
+
+
+def _is_empty_literal(e: ast.AST) -> bool:
+    """`""`, `0`, `[]`, `{}`, `()`: a value that is falsy and is not None"""
+    if isinstance(e, ast.Constant):
+        return e.value is not None and not isinstance(e.value, bool) and not e.value
+    return (isinstance(e, (ast.List, ast.Tuple, ast.Set)) and not e.elts) or (isinstance(e, ast.Dict) and not e.keys)
 
 
 def _atoms(e: ast.AST, out: list) -> None:
@@ -1894,6 +1934,8 @@ def _models(conds: tuple[Cond, ...], extra: list) -> Any:
         asg = dict(zip(atoms, vals))
         if any(k == "none" and v and asg.get(("truthy", x)) for (k, x), v in asg.items()):
             continue
+        if any(k == "empty" and v and (asg.get(("truthy", x)) or asg.get(("none", x))) for (k, x), v in asg.items()):
+            continue  # X == "" (0, [], ...): X is falsy and is not None
         if all(_holds(e, asg) == pol for e, pol in conds):
             yield asg
 
